@@ -401,9 +401,21 @@ func (g *gen) build(n int) {
 			g.emit("WHDR 0")
 		default:
 			in, as := g.validMsg(5, 60)
-			g.emit("DEC 0 decode %s", showHex(in))
+			if g.r.chance(1, 2) { // bytes after the declared length are tolerated by Decode; building continues on top
+				in = append(in, g.r.bytes(1+g.r.intn(40))...)
+			}
+			if g.r.chance(1, 2) {
+				g.emit("DEC 0 decode %s", showHex(in))
+			} else {
+				g.emit("RAWDEC 0 %d %d %s", g.r.intn(3)*32, g.r.intn(256), showHex(in))
+			}
 			for _, a := range as {
 				total += 4 + len(a.val) + len(a.pad)
+			}
+			if g.r.chance(1, 2) { // a 4-byte-aligned value right after the decode
+				l := 4 * g.r.intn(6)
+				total += 4 + l
+				g.emit("ADD 0 %d %s", g.r.pick(knownTypes), showHex(g.r.bytes(l)))
 			}
 		}
 		nops := 1 + g.r.intn(maxOps)
